@@ -85,9 +85,13 @@ func VerifC20Password() {
 	rounds := vParam("R", 1)
 	failAt := vLen("failwrite", 0, 4) - 1
 	d := &vDialer{fail: vLen("dialfails", 0, 1) == 1}
+	slow := vLen("slowpeer", 0, 1) == 1 // the peer starts reading only after Connect has returned
 	for r := 0; r < rounds; r++ {
 		w := vNewLiveWire(":srv NOTICE * :hello\r\n", ":srv 001 me :welcome\r\n", "garbage \r\n")
 		w.failWriteAt = failAt
+		if slow {
+			w.writeGate = make(chan struct{}, 64)
+		}
 		d.wires = append(d.wires, w)
 	}
 	vInstallDialer(d)
@@ -95,10 +99,23 @@ func VerifC20Password() {
 	if vLen("track", 0, 1) == 1 {
 		conn.EnableStateTracking()
 	}
+	// the application may wipe or replace Config.Pass once registration has been triggered
+	switch vLen("wipe", 0, 2) {
+	case 1:
+		conn.HandleFunc(REGISTER, func(c *Conn, l *Line) { c.Config().Pass = "" })
+	case 2:
+		conn.HandleFunc(REGISTER, func(c *Conn, l *Line) { c.Config().Pass = "other" })
+	}
 	// one or several sessions on the same client (connect, be welcomed, disconnect, connect again)
 	for r := 0; r < rounds; r++ {
 		_ = conn.ConnectContext(context.Background())
 		vRunPending()
+		if slow {
+			for i := 0; i < 64; i++ {
+				d.wires[r].writeGate <- struct{}{}
+			}
+			vRunPending()
+		}
 		conn.Close()
 		vRunPending()
 	}
